@@ -300,8 +300,15 @@ def far_prefix(n):
         stream.append(k)
         out.append(rc.C_TABLE[k])
     i = 0
+    dense = n > 10000       # long outputs: mostly maximal blocks, so that the stream still fits the code area
     while len(out) < n:
         i += 1
+        if dense and n - len(out) >= 17 and i % 50:
+            off = 1 + (i * 37) % min(len(out), 3135)
+            stream += bytes([0x3c + off // 16, (off % 16) | (15 << 4)])
+            for _ in range(17):
+                out.append(out[-off])
+            continue
         if i % 5 == 0 or n - len(out) < 3:
             k = 13 + (i * 7) % 40
             stream.append(k)
@@ -315,14 +322,14 @@ def far_prefix(n):
     return bytes(stream), bytes(out)
 
 
-def decoder_far(lo, hi, lens, res, produced=3300):
+def decoder_far(lo, hi, lens, res, produced=3300, offsets=None):
     """From the state 'produced bytes already decoded', one more reference at every offset in [lo, hi) x lens: the
     format addresses offsets 1..(255-60)*16+15 = 3135 whichever window the producer searched."""
     compress, _ = mods()
     pre_stream, pre_out = far_prefix(produced)
     if decode_all(pre_stream)[0] != pre_out or rc.c_decode(pre_stream, len(pre_out))[0] != pre_out:
         raise AssertionError('harness: far_prefix stream does not decode to its own output under the reference decoders')
-    for off in range(lo, hi):
+    for off in (range(lo, hi) if offsets is None else offsets):
         for ln in lens:
             s2 = pre_stream + bytes([0x3c + off // 16, (off % 16) | ((ln - 2) << 4)]) + b'\x0d'
             want = bytearray(pre_out)
@@ -411,6 +418,10 @@ def shards(tier, seed):
     items += [('history', 3 if tier == 'quick' else 4)]
     # every addressable offset 1..3135 from a far state: quick lengths {3, 17}, thorough all 16 lengths 2..17 -> 3..17
     items += [('far', lo, min(3136, lo + 196), tier) for lo in range(1, 3136, 196)]
+    # the header's 16-bit length field: decoded lengths around 2^15 and up to 2^16-1
+    # (the case appends an 17-byte block and a literal: declared length = n + 18, i.e. 32767, 32768, 32769, 65535 ...)
+    items += [('farlen', n - 18) for n in ((32767, 32768, 32769, 65535) if tier == 'quick' else
+                                          (16383, 16384, 16385, 32767, 32768, 32769, 49152, 65280, 65534, 65535))]
     # long-running shards first
     items.sort(key=lambda it: {'capacity': 0, 'decoder': 1, 'window': 2}.get(it[0], 3))
     return items
@@ -422,6 +433,13 @@ def run_shard(item):
     if kind == 'history':
         check_history(item[1], res)
         res.sample({'family': 'history', 'texts': HISTORY_TEXTS[:3], 'sequences': 'all of length 2..%d over 5 texts' % item[1]})
+        return res
+    if kind == 'farlen':
+        pre_stream, _ = far_prefix(item[1])
+        if len(pre_stream) + 8 + 3 > 0x3d00:
+            raise AssertionError('harness: long stream does not fit the code area')
+        decoder_far(1, 3136, (17,), res, produced=item[1], offsets=(1, 2, 16, 17, 18, 255, 256, 3119, 3120, 3121, 3135))
+        res.sample({'family': 'farlen', 'declared_length': item[1] + 18, 'stream_len': len(pre_stream) + 3})
         return res
     if kind == 'far':
         decoder_far(item[1], item[2], (3, 17) if item[3] == 'quick' else tuple(range(3, 18)), res)
